@@ -247,3 +247,35 @@ def r6(c):
 def r7(c):
     from rules import c12
     c12.r3(c)
+
+
+@rule('C20', 'R20.8', 'decoding cannot crash the task: no undischarged panic-capable operation in code that runs only at some decode level (C07/R07.1 restricted to the decode regions and the logging impls)')
+def r8(c):
+    import panics
+    from rules import c07
+    P = c.P
+    regions = {}
+    for b in P.all_bodies(crate='rodbus'):
+        if b.kind in ('Static', 'Const') or b.is_promoted:
+            continue
+        for cs, on, off in decode_switches(P, b):
+            regions.setdefault(b.path, set()).update(controlled_region(b, on, off))
+    n = nreg = 0
+    for s in panics.sites(P, 'rodbus'):
+        inreg = ('b', s.block) in regions.get(s.body.path, ())
+        inlog = norm(s.body.trait) in LOGGING_TRAITS
+        if not (inreg or inlog):
+            continue
+        n += 1
+        nreg += 1 if inreg else 0
+        if panics.auto_discharge(s) or c07.TABLE.get(s.key):
+            continue
+        c.ob('decode-site/%s' % s.key, False, 'a panic-capable operation executed only when decoding is enabled is guarded or has a recorded invariant', 'undischarged %s `%s`' % (s.kind, s.sig), s.loc(), kind='undischarged')
+    c.ob('decode-sites', True, 'panic-capable sites inside decode-controlled code examined', '%d (%d in decode regions, %d in logging impls)' % (n, nreg, n - nreg), examined=n)
+    c.floor('decode regions', sum(1 for v in regions.values() if v), 10)
+
+
+@rule('C20', 'R20.9', 'a level change handled while the RTU server waits to re-open its port does not restart the wait: one timer per wait, created outside the command loop (C14/R14.3)', needs=lambda P: P.has('rodbus::server::task::SessionTask::sleep_for'))
+def r9(c):
+    from rules import c14
+    c14.sleep_for_timer(c)
